@@ -65,7 +65,7 @@ func (g *vGen) expr() string {
 	case 2:
 		e = "needs." + rc(g.pick(g.jobIDs)) + "." + g.pick([]string{"result", "outputs." + g.pick(g.outs), "outputs", "nope"})
 	case 3:
-		e = "matrix." + rc(g.pick(g.matrixKs)) + g.pick([]string{"", "", ".name", ".foo", "[0]"})
+		e = "matrix." + rc(g.pick(g.matrixKs)) + g.pick([]string{"", "", ".name", ".foo", "[0]", ".cc", ".flags", ".std", ".deep.x", ".deep.y", ".Deep.nope"})
 	case 4:
 		e = "inputs." + rc(g.pick(g.inputs))
 	case 5:
@@ -107,6 +107,11 @@ type vWorkflow struct {
 	yaml   string
 	sexp   string
 	probes []vProbe
+	lines  []string
+	// per job: first / last line (1-based) of its block and the indices of the jobs it names in `needs:`
+	jobStart, jobEnd []int
+	jobNeeds         [][]int
+	headerEnd        int // number of lines up to and including `jobs:`
 }
 
 func genVisitWorkflow(rng *rand.Rand) *vWorkflow {
@@ -205,15 +210,22 @@ func genVisitWorkflow(rng *rand.Rand) *vWorkflow {
 		}
 		dispatch = sexpList(items)
 	}
-	b.add("jobs:")
+	headerEnd := b.add("jobs:")
 	var jobSexps []string
+	var jobStart, jobEnd []int
+	var jobNeeds [][]int
 	for ji, pl := range plans {
-		b.add("  " + pl.id + ":")
+		if len(jobStart) > len(jobEnd) {
+			jobEnd = append(jobEnd, len(b.lines))
+		}
+		jobStart = append(jobStart, b.add("  "+pl.id+":"))
+		jobNeeds = append(jobNeeds, nil)
 		// needs
 		var needs []string
 		for k := range plans {
 			if k != ji && rng.Intn(3) == 0 {
 				needs = append(needs, randCase(rng, plans[k].id))
+				jobNeeds[ji] = append(jobNeeds[ji], k)
 			}
 		}
 		if rng.Intn(8) == 0 {
@@ -225,11 +237,18 @@ func genVisitWorkflow(rng *rand.Rand) *vWorkflow {
 		if len(needs) > 0 {
 			b.add("    needs: [" + strings.Join(needs, ", ") + "]")
 		}
-		b.add("    runs-on: ubuntu-latest")
+		// a job that calls a reusable workflow (remote spec: no metadata, outputs are {string => string}); it may have a
+		// matrix, `with:` and `secrets:` but no steps / outputs / environment
+		isCall := rng.Intn(5) == 0
+		if isCall {
+			b.add("    uses: octo/repo/.github/workflows/w.yml@v1")
+		} else {
+			b.add("    runs-on: ubuntu-latest")
+		}
 		// matrix
 		mx := "N"
 		fromJ := func(v string) (string, string) { return "${{ fromJSON(vars." + v + ") }}", hx("fromJSON(vars."+v+") }}") }
-		switch rng.Intn(11) {
+		switch rng.Intn(12) {
 		case 0, 1:
 		case 2:
 			b.add("    strategy:")
@@ -287,6 +306,18 @@ func genVisitWorkflow(rng *rand.Rand) *vWorkflow {
 			b.add("          - ${{ github.event }}")
 			b.add("          - os: {name: n}")
 			mx = fmt.Sprintf("(lit,((%s,(vals,num))),(combos,(expr,%s),(assigns,(%s,(obj,(%s,s))))))", hx("ver"), hx("github.event }}"), hx("os"), hx("name"))
+		case 10:
+			b.add("    strategy:")
+			b.add("      matrix:")
+			b.add("        os: [linux]")
+			b.add("        include:")
+			b.add("          - cfg: {cc: a}")
+			b.add("          - cfg: {flags: b, Deep: {x: 1}}")
+			b.add("            extra: 1")
+			b.add("          - cfg: {std: c, deep: {y: [1]}}")
+			b.add("            extra: s")
+			mx = fmt.Sprintf("(lit,((%s,(vals,s))),(combos,(assigns,(%s,(obj,(%s,s)))),(assigns,(%s,(obj,(%s,s),(%s,(obj,(%s,num))))),(%s,num)),(assigns,(%s,(obj,(%s,s),(%s,(obj,(%s,(arr,num)))))),(%s,s))))",
+				hx("os"), hx("cfg"), hx("cc"), hx("cfg"), hx("flags"), hx("deep"), hx("x"), hx("extra"), hx("cfg"), hx("std"), hx("deep"), hx("y"), hx("extra"))
 		default:
 			b.add("    strategy:")
 			b.add("      matrix:")
@@ -296,6 +327,26 @@ func genVisitWorkflow(rng *rand.Rand) *vWorkflow {
 		}
 		// job-level probes
 		var pre, post, steps []string
+		if isCall {
+			if rng.Intn(2) == 0 {
+				pre = append(pre, b.probe("    name: ", g.expr(), "jobs.<job_id>.name").sexp())
+			}
+			if rng.Intn(2) == 0 {
+				pre = append(pre, b.probe("    if: ", g.expr(), "jobs.<job_id>.if").sexp())
+			}
+			b.add("    with:")
+			pre = append(pre, b.probe("      a: ", g.expr(), "jobs.<job_id>.with.<with_id>").sexp())
+			if rng.Intn(2) == 0 {
+				b.add("    secrets:")
+				pre = append(pre, b.probe("      s: ", g.expr(), "jobs.<job_id>.secrets.<secrets_id>").sexp())
+			}
+			var needsHex []string
+			for _, n := range needs {
+				needsHex = append(needsHex, hx(n))
+			}
+			jobSexps = append(jobSexps, fmt.Sprintf("(%s,%s,(),(obj,(),string),%s,%s,(),())", hx(pl.id), sexpList(needsHex), mx, sexpList(pre)))
+			continue
+		}
 		if rng.Intn(2) == 0 {
 			pre = append(pre, b.probe("    name: ", g.expr(), "jobs.<job_id>.name").sexp())
 		}
@@ -392,9 +443,10 @@ func genVisitWorkflow(rng *rand.Rand) *vWorkflow {
 		}
 		jobSexps = append(jobSexps, fmt.Sprintf("(%s,%s,%s,N,%s,%s,%s,%s)", hx(pl.id), sexpList(needsHex), sexpList(outsHex), mx, sexpList(pre), sexpList(steps), sexpList(post)))
 	}
+	jobEnd = append(jobEnd, len(b.lines))
 	return &vWorkflow{yaml: strings.Join(b.lines, "\n") + "\n",
 		sexp:   fmt.Sprintf("((%s,%s,%s),%s,%s)", dispatch, callIn, callSec, sexpList(jobSexps), sexpList(callOutProbes)),
-		probes: b.probes}
+		probes: b.probes, lines: append([]string{}, b.lines...), jobStart: jobStart, jobEnd: jobEnd, jobNeeds: jobNeeds, headerEnd: headerEnd}
 }
 
 // visitCanon: `line=code|code;…` over the probes, codes sorted; diagnostics the model does not produce (type checks on
@@ -430,7 +482,7 @@ func visitCanon(w *vWorkflow, errs []*actionlint.Error) (string, bool) {
 }
 
 // visitTie runs n generated workflows through the real linter and the model.
-func visitTie(c *ctx, r *Report, n int, judge func(cs Case) (string, string)) error {
+func visitTie(c *ctx, r *Report, n int, independence bool, judge func(cs Case) (string, string)) error {
 	rng := rand.New(rand.NewSource(c.seed + 15485863))
 	var b batch
 	b.judge = judge
@@ -462,11 +514,60 @@ func visitTie(c *ctx, r *Report, n int, judge func(cs Case) (string, string)) er
 			r.disagree(cs)
 		}
 		nProbes += len(w.probes)
+		if independence && len(w.jobStart) >= 2 {
+			// C09 at workflow level, without the model: every job linted with only the jobs it needs (header unchanged) gets the
+			// same [expression] diagnostics on its lines as in the whole workflow
+			whole := map[int][]string{}
+			for _, e := range errs {
+				if e.Kind == "expression" {
+					whole[e.Line] = append(whole[e.Line], fmt.Sprintf("%d:%s", e.Column, e.Message))
+				}
+			}
+			for ji := range w.jobStart {
+				keep := map[int]bool{ji: true}
+				for _, k := range w.jobNeeds[ji] {
+					keep[k] = true
+				}
+				if len(keep) == len(w.jobStart) {
+					continue
+				}
+				sub := append([]string{}, w.lines[:w.headerEnd]...)
+				shift := 0 // line of job ji in the sub-workflow minus its line in the whole one
+				for k := range w.jobStart {
+					if !keep[k] {
+						continue
+					}
+					if k == ji {
+						shift = len(sub) + 1 - w.jobStart[k]
+					}
+					sub = append(sub, w.lines[w.jobStart[k]-1:w.jobEnd[k]]...)
+				}
+				subErrs, err := lintSrc("v.yaml", strings.Join(sub, "\n")+"\n")
+				r.Evaluations++
+				if err != nil {
+					continue
+				}
+				alone := map[int][]string{}
+				for _, e := range subErrs {
+					if e.Kind == "expression" {
+						alone[e.Line-shift] = append(alone[e.Line-shift], fmt.Sprintf("%d:%s", e.Column, e.Message))
+					}
+				}
+				for ln := w.jobStart[ji]; ln <= w.jobEnd[ji]; ln++ {
+					a, b2 := strings.Join(alone[ln], " | "), strings.Join(whole[ln], " | ")
+					if a != b2 {
+						r.finding("job-depends-on-other-jobs", fmt.Sprintf("the [expression] diagnostics on line %d (%s) differ between the whole workflow and the workflow reduced to this job and the jobs it needs", ln, strings.TrimSpace(w.lines[ln-1])),
+							Case{Op: "visit-independence", Input: map[string]string{"yaml": w.yaml, "reduced_yaml": strings.Join(sub, "\n") + "\n"}, Impl: b2, Model: a})
+						break
+					}
+				}
+			}
+		}
 		r.nontrivial(w.sexp)
 		r.hist("tie:visit")
 		b.add("visit "+w.sexp, canon, cs)
 	}
-	r.Rule += fmt.Sprintf("; workflow-level model tie: %d generated workflows (1–4 jobs with needs incl. unknown / re-cased / self references, declared outputs, 11 matrix shapes incl. expression rows / include / matrix and nested values, workflow_call / workflow_dispatch inputs and secrets, steps with ids incl. placeholder ids and bundled actions, %d probes at job name / env / if / concurrency / container image, credentials, options, env / outputs / environment url / step run, with, name, if, env, working-directory / workflow_call output values) through the real linter and the Lean model AL.Visit: the [expression] diagnostics on every probe line compared (codes with arguments)", n, nProbes)
+	r.Rule += fmt.Sprintf("; workflow-level model tie: %d generated workflows (1–4 jobs with needs incl. unknown / re-cased / self references, declared outputs, 12 matrix shapes incl. expression rows / include / matrix and nested values, workflow_call / workflow_dispatch inputs and secrets, steps with ids incl. placeholder ids and bundled actions, jobs that call a reusable workflow (with matrix / with / secrets), %d probes at job name / env / if / concurrency / container image, credentials, options, env / outputs / environment url / step run, with, name, if, env, working-directory / workflow_call output values) through the real linter and the Lean model AL.Visit: the [expression] diagnostics on every probe line compared (codes with arguments)", n, nProbes)
 	_, err := b.flush(c, r)
 	return err
 }
